@@ -420,6 +420,25 @@ type Violation struct {
 	Label string            `json:"label"`
 	Model map[string]uint64 `json:"model"`
 	Path  []int             `json:"path"`
+	PC    []string          `json:"pc,omitempty"`
+}
+
+// DumpPC makes every violation carry its path condition (debugging).
+var DumpPC = os.Getenv("GOSYM_DUMP_PC") != ""
+
+func (e *Explorer) pcStrings() []string {
+	if !DumpPC {
+		return nil
+	}
+	var r []string
+	for _, t := range e.pc {
+		s := t.String()
+		if len(s) > 300 {
+			s = s[:300] + "..."
+		}
+		r = append(r, s)
+	}
+	return r
 }
 
 // Sample is one completed path, written to the evidence so that a reader sees what was explored.
@@ -662,7 +681,7 @@ func (e *Explorer) decide(c *Term) bool {
 	}
 	e.pos++
 	e.taken = append(e.taken, br)
-	if Trace && e.pos > len(e.prefix) {
+	if Trace {
 		cs := c.String()
 		if len(cs) > 160 {
 			cs = cs[:160]
@@ -706,8 +725,11 @@ func (e *Explorer) concretize(x sym) value {
 	}
 }
 
+// StartPrefix, when non-nil, makes the exploration start from this decision prefix (debugging).
+var StartPrefix []int
+
 func (e *Explorer) Run(runOnce func()) {
-	e.queue = [][]int{nil}
+	e.queue = [][]int{StartPrefix}
 	e.Witness = map[string]int{}
 	e.Inconcl = map[string]int{}
 	e.executed = map[string]bool{}
@@ -844,7 +866,7 @@ func (e *Explorer) assert(c value, label string) {
 	t := c.(sym).t
 	ok, model := e.feasibleModel(mkNot(t))
 	if ok {
-		e.Viol = append(e.Viol, Violation{Label: "assert:" + label, Model: model, Path: append([]int{}, e.taken...)})
+		e.Viol = append(e.Viol, Violation{Label: "assert:" + label, Model: model, Path: append([]int{}, e.taken...), PC: e.pcStrings()})
 	}
 	// continue under the assertion
 	if ok2, _ := e.feasible(t); !ok2 {
@@ -875,7 +897,10 @@ func (s *Solver) Close() {
 func NewSolver() *Solver {
 	bin := os.Getenv("GOSYM_SOLVER")
 	if bin == "" {
-		bin = "z3"
+		bin = "z3-new" // z3 5.1.0: decides the integer time-arithmetic queries z3 4.8.12 times out on
+		if _, err := exec.LookPath(bin); err != nil {
+			bin = "z3"
+		}
 	}
 	cmd := exec.Command(bin, "-in")
 	in, _ := cmd.StdinPipe()
@@ -969,6 +994,15 @@ func (s *Solver) flushDefs(pc []*Term, extra *Term) string {
 		_ = extra.String()
 		s.declare(extra, &sb)
 	}
+	if len(pendingDefs) > 0 {
+		// a shared definition may mention a variable that occurs in no asserted term yet
+		for n, w := range seenVars {
+			if !s.declared[n] && w > 0 {
+				s.declared[n] = true
+				fmt.Fprintf(&sb, "(declare-const %s Int)\n", n)
+			}
+		}
+	}
 	for _, d := range pendingDefs {
 		sb.WriteString(d)
 	}
@@ -989,7 +1023,11 @@ func (s *Solver) CheckInc(pc []*Term, extra *Term, wantModel bool) (bool, map[st
 	io.WriteString(s.in, sb.String())
 	s.NChecks++
 	r := s.readLine()
-	s.Wall += time.Since(tq)
+	dq := time.Since(tq)
+	s.Wall += dq
+	if dq > time.Second && SlowLog != nil {
+		fmt.Fprintf(SlowLog, ";; %v %s\n(reset)\n%s\n", dq, r, s.fullScript(pc, extra))
+	}
 	var model map[string]uint64
 	ok := false
 	switch r {
@@ -1071,6 +1109,52 @@ func (s *Solver) script(asserts []*Term) (string, []string) {
 }
 
 var SolverLog io.Writer
+var SlowLog io.Writer
+
+// fullScript renders a stand-alone SMT-LIB2 script for pc ∧ extra (debugging / solver diff).
+func (s *Solver) fullScript(pc []*Term, extra *Term) string {
+	var sb strings.Builder
+	vars := map[string]int{}
+	for _, t := range pc {
+		t.vars(vars)
+	}
+	extra.vars(vars)
+	names := make([]string, 0, len(vars))
+	for n := range vars {
+		names = append(names, n)
+	}
+	sort.Strings(names)
+	for _, n := range names {
+		if vars[n] == 0 {
+			fmt.Fprintf(&sb, "(declare-const %s Bool)\n", n)
+		} else if UseInt {
+			fmt.Fprintf(&sb, "(declare-const %s Int)\n", n)
+		} else {
+			fmt.Fprintf(&sb, "(declare-const %s (_ BitVec %d))\n", n, vars[n])
+		}
+	}
+	if UseInt {
+		type kv struct{ k, v string }
+		var defs []kv
+		for e, n := range defNames {
+			defs = append(defs, kv{n, e})
+		}
+		sort.Slice(defs, func(i, j int) bool {
+			var a, b int
+			fmt.Sscanf(defs[i].k, "t!%d", &a)
+			fmt.Sscanf(defs[j].k, "t!%d", &b)
+			return a < b
+		})
+		for _, d := range defs {
+			fmt.Fprintf(&sb, "(define-fun %s () Int %s)\n", d.k, d.v)
+		}
+	}
+	for _, t := range pc {
+		fmt.Fprintf(&sb, "(assert %s)\n", ranged(t))
+	}
+	fmt.Fprintf(&sb, "(assert %s)\n(check-sat)\n", ranged(extra))
+	return sb.String()
+}
 
 func (s *Solver) readLine() string {
 	l, err := s.out.ReadString('\n')
